@@ -269,6 +269,76 @@ def ieval(e, env):
     raise NoEval(str(e)[:60])
 
 
+def beval(e, env):
+    """truth value of a boolean expression tree under env (comparisons, `!`, and the integer predicates the code base uses)"""
+    e = flow.strip_casts(e)
+    if e[0] == "const" and isinstance(e[1], int):
+        return bool(e[1])
+    if e[0] == "un" and e[1] == "Not":
+        return not beval(e[2], env)
+    if e[0] == "bin" and e[1] in ("Lt", "Le", "Gt", "Ge", "Eq", "Ne"):
+        a, b = ieval(e[2], env), ieval(e[3], env)
+        return {"Lt": a < b, "Le": a <= b, "Gt": a > b, "Ge": a >= b, "Eq": a == b, "Ne": a != b}[e[1]]
+    if e[0] == "call":
+        fn = e[1]
+        if re.search(r"::is_multiple_of$", fn):
+            a, b = ieval(e[2][0], env), ieval(e[2][1], env)
+            return a == 0 if b == 0 else a % b == 0
+        if re.search(r"::is_power_of_two$", fn):
+            a = ieval(e[2][0], env)
+            return a > 0 and a & (a - 1) == 0
+        if re.search(r"PartialEq::(eq|ne)$", fn):
+            a, b = ieval(e[2][0], env), ieval(e[2][1], env)
+            return (a == b) == fn.endswith("eq")
+        if re.search(r"PartialOrd::(lt|le|gt|ge)$", fn):
+            a, b = ieval(e[2][0], env), ieval(e[2][1], env)
+            return {"lt": a < b, "le": a <= b, "gt": a > b, "ge": a >= b}[fn.rsplit("::", 1)[1]]
+    raise NoEval("bool " + str(e)[:60])
+
+
+def guard_holds(f, env):
+    """an edge fact from flow.edge_guards under env"""
+    op, l, r = f
+    if op in ("true", "false"):
+        return beval(l, env) == (op == "true")
+    return beval(("bin", op, l, r), env)
+
+
+def ieval_in(b, e, env, _depth=0):
+    """ieval for an expression of body b that may mention locals assigned on several paths (`if c { x } else { y }`):
+    such a local is replaced by the value of the one definition whose dominating branch facts hold under env"""
+    try:
+        return ieval(e, env)
+    except NoEval:
+        if _depth > 6:
+            raise
+    dom = b.dominators()
+    eg = flow.edge_guards(b)
+
+    def subst(x):
+        if not isinstance(x, tuple) or not x:
+            return x
+        if x[0] == "place" and len(x) == 2 and isinstance(x[1], int):
+            vals = set()
+            for bb, idx, d in b.defs().get(x[1], []):
+                if idx == "t" or d["k"] not in ("use", "bin", "un", "cast"):
+                    raise NoEval(f"local {x[1]} defined by {d['k']}")
+                gs = [f for tgt, f in eg if flow.dominates(dom, tgt, bb)]
+                if all(guard_holds(f, env) for f in gs):
+                    if d["k"] == "use":
+                        de = flow.expr_of(b, d["o"], max_depth=20)
+                    elif d["k"] == "bin":
+                        de = ("bin", d["op"].replace("WithOverflow", ""), flow.expr_of(b, d["a"], max_depth=20), flow.expr_of(b, d["b"], max_depth=20))
+                    else:
+                        raise NoEval(f"local {x[1]} defined by {d['k']}")
+                    vals.add(ieval_in(b, de, env, _depth + 1))
+            if len(vals) != 1:
+                raise NoEval(f"local {x[1]}: {len(vals)} candidate values")
+            return ("const", vals.pop())
+        return tuple(subst(y) if isinstance(y, tuple) else y for y in x)
+    return ieval(subst(e), env)
+
+
 def compile_expr(e, keys):
     """Turn an expression tree into a Python function of the values of `keys` (same semantics as ieval, but ~50x
     faster for large grids).  Raises NoEval for anything the evaluator does not know."""
